@@ -31,8 +31,10 @@ pub enum Place {
     DescFresh = 4,
     /// seeded random slot among free slots (fresh slots enter the free set 64 at a time)
     Random = 5,
+    /// reuse the slot that has been free longest (a re-created structure lands where the old one was), else next higher
+    AscFifo = 6,
 }
-pub const PLACES: [Place; 5] = [Place::AscLifo, Place::DescLifo, Place::AscFresh, Place::DescFresh, Place::Random];
+pub const PLACES: [Place; 6] = [Place::AscLifo, Place::DescLifo, Place::AscFresh, Place::DescFresh, Place::Random, Place::AscFifo];
 
 #[derive(Clone, Copy, PartialEq, Eq, Debug)]
 #[repr(u8)]
@@ -67,6 +69,7 @@ impl Policy {
             3 => Place::AscFresh,
             4 => Place::DescFresh,
             5 => Place::Random,
+            6 => Place::AscFifo,
             _ => Place::Off,
         };
         let fill = match (c >> 8) & 0xff {
@@ -139,7 +142,7 @@ static mut ARENA: Arena = Arena {
     live: 0,
 };
 pub static SERVED: AtomicU64 = AtomicU64::new(0);
-pub static SERVED_BY_PLACE: [AtomicU64; 6] = [const { AtomicU64::new(0) }; 6];
+pub static SERVED_BY_PLACE: [AtomicU64; 7] = [const { AtomicU64::new(0) }; 7];
 pub static FREED: AtomicU64 = AtomicU64::new(0);
 pub static FELL_THROUGH: AtomicU64 = AtomicU64::new(0);
 static HIGH_WATER: AtomicUsize = AtomicUsize::new(0);
@@ -234,7 +237,12 @@ unsafe fn arena_alloc(size: usize, zeroed: bool, pol: Policy) -> *mut u8 {
             cl.nfree -= 1;
             slot = *fs.add(cl.nfree as usize);
         }
-        Place::AscLifo | Place::AscFresh => {
+        Place::AscFifo if cl.nfree > 0 => {
+            slot = *fs;
+            cl.nfree -= 1;
+            std::ptr::copy(fs.add(1), fs, cl.nfree as usize);
+        }
+        Place::AscLifo | Place::AscFresh | Place::AscFifo => {
             if cl.lo >= cl.hi {
                 return std::ptr::null_mut();
             }
@@ -458,7 +466,7 @@ pub fn stats_json() -> serde_json::Value {
         "served_by_place": {
             "AscLifo": SERVED_BY_PLACE[1].load(Relaxed), "DescLifo": SERVED_BY_PLACE[2].load(Relaxed),
             "AscFresh": SERVED_BY_PLACE[3].load(Relaxed), "DescFresh": SERVED_BY_PLACE[4].load(Relaxed),
-            "Random": SERVED_BY_PLACE[5].load(Relaxed)},
+            "Random": SERVED_BY_PLACE[5].load(Relaxed), "AscFifo": SERVED_BY_PLACE[6].load(Relaxed)},
         "fell_through_to_system": FELL_THROUGH.load(Relaxed),
         "arena_high_water_bytes": HIGH_WATER.load(Relaxed),
         "getrandom_calls_answered": GETRANDOM_CALLS.load(Relaxed),
